@@ -284,6 +284,36 @@ def run(ctx):
                     viol.append({'property': 'C05', 'kind': 'counters-not-tallies', 'counter': k,
                                  'diff': str(list(((+got[k]) - (+want[k])).items())[:3]) + str(list(((+want[k]) - (+got[k])).items())[:3]),
                                  'witness': {'list': pws}})
+    # the length-indexed counters (model: Model/Counters.lean, theorem C05_len_indexed_counters): sequences of calls of the real
+    # `_update_counter_len_indexed` on one fresh dict - several new lengths within one call, repeated items, repeated calls - against
+    # the Lean model, dict and Counter insertion order included
+    from lib_trainer.pcfg_password_parser import PCFGPasswordParser as _PP
+    pool_items = ['sun', 'tiger', '12', '345', 'ab', 'x', 'hello', '99', 'sun', '12', 'zz', '7', 'Tiger', 'LLL', 'ULL', 'LLLLL', '!!', '#']
+    for k_ in range(ctx.scale(40, 400)):
+        calls_ = [[rng.choice(pool_items) for _ in range(rng.randint(0, 5))] for _ in range(rng.randint(1, 6))]
+        if k_ == 0:
+            calls_ = [['sun', 'tiger'], ['12', '345'], ['sun'], ['hello', 'ab', 'tiger']]
+        try:
+            pp_ = object.__new__(_PP)
+            dct_ = {}
+            for c_ in calls_:
+                pp_._update_counter_len_indexed(dct_, c_)
+            real_ = ' '.join(['lenctr'] + [f"{n_}:[" + ','.join(f"{cd.cps(it_)}={cnt_}" for it_, cnt_ in ctr_.items()) + ']' for n_, ctr_ in dct_.items()])
+        except Exception as e:
+            viol.append({'property': 'C05', 'kind': 'counter-update-raised', 'error': repr(e)[:200], 'witness': {'calls': calls_}})
+            continue
+        ops.append('dt.lenctr ' + ' | '.join(' '.join(cd.cps(it_) for it_ in c_) for c_ in calls_))
+        exp.append(real_)
+        cases += 1
+        dist['counter_update_sequences'] = dist.get('counter_update_sequences', 0) + 1
+        # independent of both: bucket n holds exactly the items of length n with their number of occurrences
+        flat_ = [it_ for c_ in calls_ for it_ in c_]
+        for n_, ctr_ in dct_.items():
+            want_ = Counter(it_ for it_ in flat_ if len(it_) == n_)
+            if Counter(dict(ctr_)) != want_:
+                viol.append({'property': 'C05', 'kind': 'counters-not-tallies', 'counter': f'length {n_}', 'diff': str(dict(ctr_))[:120] + ' vs ' + str(dict(want_))[:120],
+                             'witness': {'calls': calls_}})
+                break
     # "every password the trainer accepts": what reaches the parser is what the input reader yields.  A training file with plain and
     # $HEX[] lines, some of whose payloads the filter has to reject (empty, TAB, line boundaries, control characters): whatever
     # the reader yields is parsed by the real parser and judged by the same predicates
